@@ -41,6 +41,17 @@ def field_types(F, view):
             ty = dict(ty)
             ty['args'] = [bind.get(a['param'], a) if isinstance(a, dict) and 'param' in a else a for a in ty.get('args', [])]
             ty = norm_option_like_ty(F, ty)
+        from .sir import oos_components
+        ty_b = ty
+        if ty.get('args'):
+            ty_b = dict(ty)
+            ty_b['args'] = [bind.get(a['param'], a) if isinstance(a, dict) and 'param' in a else a for a in ty.get('args', [])]
+        oc = oos_components(F, ty_b)
+        if oc:
+            # Option of a plain struct / option-like enum with several payload fields: one Option cell per payload field
+            for cn, cty in oc:
+                out['%s.%s' % (path, cn)] = {'adt': 'std::option::Option', 'args': [cty]}
+            return
         if ty.get('adt') in ('std::vec::Vec', 'std::collections::VecDeque') and ty.get('args'):
             # a queue of small structs / tuples is presented by the value graph as one queue per component (sfa/vg.py: aos_normalise)
             el = ty['args'][0]
@@ -128,10 +139,12 @@ class Bounds:
         self.m = model(F, view)
         self.ftypes = field_types(F, view)
         self.int_fields = {p for p, t in self.ftypes.items() if is_int_ty(t)}
+        # Option<integer> cells: their payload is an integer atom ('?path' marks them for the solver's typing context)
+        self.int_fields |= {'?' + p for p, t in self.ftypes.items() if t.get('adt') == 'std::option::Option' and t.get('args') and is_int_ty(t['args'][0])}
         self.buffers = sorted(p for p, t in self.ftypes.items() if is_seq_tyj(t))
         self.options = sorted(p for p, t in self.ftypes.items() if is_opt_tyj(t))
-        self.int_params = sorted(p for p in self.int_fields if p not in self.m.touched)
-        self.int_cells = sorted(p for p in self.int_fields if p in self.m.touched)
+        self.int_params = sorted(p for p in self.int_fields if p not in self.m.touched and not p.startswith('?'))
+        self.int_cells = sorted(p for p in self.int_fields if p in self.m.touched and not p.startswith('?'))
         int_args = set()
         for c in view.ctors + view.helpers + [view.update, view.last]:
             if c is None:
